@@ -45,7 +45,7 @@ def scenarios(kind, tier):
 
     quick = tier == "quick"
     un_forms = [(1, 0)] if quick else [(1, 0), (0, 0), (11, 3)]
-    bin_forms = [(2, 0, 1), (0, 0, 1)] if quick else [(2, 0, 1), (0, 0, 1), (1, 0, 1), (2, 0, 0), (11, 10, 9)]
+    bin_forms = [(2, 0, 1), (0, 0, 1), (1, 0, 1)] if quick else [(2, 0, 1), (0, 0, 1), (1, 0, 1), (2, 0, 0), (11, 10, 9)]
     k = 0
     for name in sorted(sem):
         c, base, lhs = sem[name]
@@ -89,6 +89,12 @@ def scenarios(kind, tier):
     # spill slots + call
     add("spill_call", ["Input 0 0", "Input 1 1", "Store 0 12", "Store 1 15", "ExpReg 2 0", "Load 3 15", "Load 4 12",
                        "SubRegReg 5 3 4", "AddRegReg 5 5 2", "Output 5 0"], 2, 1, slots=16)
+    # a single spill slot (the highest slot) kept live across a call, for every
+    # frame-size residue: 1..4 spill slots
+    for n in (1, 2, 3, 4):
+        top = 12 + n - 1
+        add("spill%d_call" % n, ["Input 0 0", "Input 1 1", "Store 0 %d" % top, "SinReg 2 1", "Load 3 %d" % top, "SubRegReg 4 3 2",
+                                  "Output 4 0"], 2, 1, slots=12 + n)
     return out
 
 
